@@ -2,7 +2,25 @@ package numpin
 
 import "time"
 
-var vrfEntries = map[string]func(){"VrfC15Numpin": VrfC15Numpin}
+var vrfEntries = map[string]func(){"VrfC15Numpin": VrfC15Numpin, "VrfC15NumpinEnv": VrfC15NumpinEnv}
+
+// VrfC15NumpinEnv: the metric TTL supplied through the environment.
+func VrfC15NumpinEnv() {
+	cfg := &Config{MetricTTL: time.Duration(vrf_nondet_int64("metric_ttl"))}
+	vrf_assume(cfg.Validate() == nil)
+	before := *cfg
+	setT, valT := vrf_nondet_bool("env_set_MetricTTL"), time.Duration(vrf_nondet_int64("env_MetricTTL"))
+	vrf_env(envConfigKey, "MetricTTL", setT, valT.String())
+	err := cfg.ApplyEnvVars()
+	wantTTL := time.Duration(vrf_ite_int(setT, int(valT), int(before.MetricTTL)))
+	if err == nil {
+		vrf_assert(cfg.MetricTTL == wantTTL, "C15.numpin.env-in-effect")
+		vrf_assert(cfg.Validate() == nil, "C15.numpin.env-accepted-implies-valid")
+	} else {
+		vrf_assert(!(wantTTL > 0), "C15.numpin.env-valid-accepted")
+	}
+	vrf_reach("C15.numpin.env-end")
+}
 
 func VrfC15Numpin() {
 	d := &Config{}
